@@ -200,6 +200,13 @@ def fam_shape(tier, kind=R):
         yield c("ravel", "x.ravel() method", lambda np, x: x.ravel(), [kind(*s)])
         yield c("ravel", "x.flatten() method", lambda np, x: x.flatten(), [kind(*s)])
         yield c("ravel", "x.flatten('F') method", lambda np, x: x.flatten("F"), [kind(*s)])
+    # memory layout: order='A'/'K' depend on whether the INPUT is Fortran- or C-contiguous
+    for order in ("A", "F", "C", "K"):
+        yield c("ravel", "np.ravel(x.T,order=%r) transposed (F-contiguous) input" % order, lambda np, x, _o=order: np.ravel(np.transpose(x), order=_o), [kind(2, 3)])
+        yield c("reshape", "np.reshape(x.T,(6,),order=%r) transposed input" % order, lambda np, x, _o=order: np.reshape(np.transpose(x), (6,), order=_o), [kind(2, 3)])
+        yield c("reshape", "np.reshape(x.T,(2,3),order=%r) transposed input" % order, lambda np, x, _o=order: np.reshape(np.transpose(x), (2, 3), order=_o), [kind(2, 3)])
+        yield c("ravel", "x.T.flatten(%r)" % order, lambda np, x, _o=order: x.T.flatten(_o), [kind(2, 3)])
+        yield c("ravel", "np.ravel(x[:, ::2],order=%r) strided view" % order, lambda np, x, _o=order: np.ravel(x[:, ::2], order=_o), [kind(2, 3)])
     # expand_dims / squeeze
     for s in [(2, 3), (), (2,)]:
         nd = len(s)
@@ -401,6 +408,10 @@ def fam_shape(tier, kind=R):
     yield c("where", "np.where(c,x,scalar)", lambda np, x, y: np.where(cnd, x, y), [kind(3), sc], 1)
     yield c("where", "np.where(c,x,0.0)", lambda np, x: np.where(cnd, x, 0.0), [kind(3)])
     yield c("where", "np.where(c,0.0,x)", lambda np, x: np.where(cnd, 0.0, x), [kind(3)])
+    yield c("where", "np.where(xcond,a,b) wrt the float condition, broadcast (2,1) vs (2,3)", lambda np, x, a, b: np.where(x, a, b), [kind(2, 1), kind(2, 3), kind(2, 3)], 0)
+    yield c("where", "np.where(xcond,a,b) wrt the float condition, (3,) vs (2,3)", lambda np, x, a, b: np.where(x, a, b), [kind(3), kind(2, 3), kind(2, 3)], 0)
+    yield c("where", "np.where(scalar cond,a,b) wrt the condition", lambda np, x, a, b: np.where(x, a, b), [sc, kind(2, 3), kind(2, 3)], 0)
+    yield c("where", "x*np.where(x,a,b) condition also used smoothly", lambda np, x, a, b: x * np.where(x, a, b), [kind(2, 1), kind(2, 3), kind(2, 3)], 0)
     yield c("where", "np.where(x>0,x,2*x) value-dependent", lambda np, x: np.where(x > 0, x, 2 * x), [kind(2)])
     yield c("where", "np.where(c2d,x,y) cond broadcast", lambda np, x, y: np.where(onp.array([[True], [False]]), x, y), [kind(3), kind(3)], 0)
     for lo, hi in [(-0.5, 0.5), (None, 0.5), (-0.5, None)]:
@@ -420,6 +431,12 @@ def fam_shape(tier, kind=R):
     yield c("linspace", "np.linspace(s,t,3)", lambda np, x, y: np.linspace(x, y, 3), [sc, sc], 1)
     yield c("linspace", "np.linspace(s,2.0,num=4)", lambda np, x: np.linspace(x, 2.0, num=4), [sc])
     yield c("linspace", "np.linspace(s,2.0,4,endpoint=False)", lambda np, x: np.linspace(x, 2.0, 4, endpoint=False), [sc])
+    for kw in ({"endpoint": False}, {"endpoint": True}, {"num": 4}, {"num": 4, "endpoint": False}, {"retstep": False}, {"axis": 0}):
+        lab = ",".join("%s=%r" % kv for kv in kw.items())
+        args_ = (4,) if "num" not in kw else ()
+        yield c("linspace", "np.linspace(s,t,%s%s) wrt start" % ("4," if args_ else "", lab), lambda np, x, y, _kw=kw, _a=args_: np.linspace(x, y, *_a, **_kw), [sc, sc], 0)
+        yield c("linspace", "np.linspace(s,t,%s%s) wrt stop" % ("4," if args_ else "", lab), lambda np, x, y, _kw=kw, _a=args_: np.linspace(x, y, *_a, **_kw), [sc, sc], 1)
+        yield c("linspace", "np.linspace(-1.0,t,%s%s) wrt stop" % ("4," if args_ else "", lab), lambda np, y, _kw=kw, _a=args_: np.linspace(-1.0, y, *_a, **_kw), [sc], 0)
     yield c("linspace", "np.linspace(x[2],2.0,3) array start", lambda np, x: np.linspace(x, 2.0, 3), [kind(2)])
     yield c("linspace", "np.linspace(s,2.0) default num", lambda np, x: np.linspace(x, 2.0), [sc])
     for n in ("sort", "partition"):
@@ -1075,6 +1092,8 @@ def flatten_cases():
         ("scalar", SC, lambda np, x: x * x),
         ("empty containers inside", ((), [R(2)], {}), lambda np, t: np.sum(t[1][0] ** 2)),
         ("0-d array leaf", (R(), R(2)), lambda np, t: t[0] * np.sum(t[1])),
+        ("Fortran-contiguous matrix leaf [layout:F]", {"w": R(2, 3), "b": R(2)}, lambda np, d: np.sum(d["w"] * onp.array([[1.0, 2.0, 3.0], [4.0, 5.0, 6.0]])) + np.sum(d["b"] ** 2)),
+        ("tuple with a Fortran-contiguous leaf [layout:F]", (R(3, 2), SC), lambda np, t: np.sum(t[0] * onp.arange(6.0).reshape(3, 2)) * t[1]),
     ]
 
 
